@@ -50,6 +50,8 @@ FIXED = [
  ("F50", "C10", "fix: create_missing_prefixes does not invent a prefix for the xml namespace", "with an xml:lang attribute create_missing_prefixes declared n0 for the XML namespace; serialisation then wrote an undeclared n0:lang"),
  ("F37", "C15", "fix: deduplicate_namespaces keeps a declaration whose alternative is shadowed below", "<r xmlns:q=\"A\"><e xmlns:p=\"A\" xmlns:q=\"B\"><p:x/></e></r> lost p and failed with MissingPrefix(A) after deduplication"),
  ("F51", "C15", "fix: deduplicate_namespaces runs to a fixed point", "a second deduplicate_namespaces call removed further declarations"),
+ ("F35", "C14", "fix: no indentation inside xml:space", "indentation was written inside xml:space=\"preserve\" when the element is not at depth 0"),
+ ("F36", "C14", "fix: carriage return in a CDATA-section element", "a CR inside a CDATA-section element came back as LF"),
  ("F31a", "C06", "fix: create_missing_prefixes returns an error for a document without an element", "create_missing_prefixes panicked on a document without element"),
 ]
 OPEN = [
